@@ -1,36 +1,49 @@
 (* ======================================================================================
    Proof/Fun2CoreTyTotal  -  no internal failure of fun2core on guarded programs (C12):
      prog_tyguard p = true -> exists c, compile_prog p = Ok c.
-   The only failure of the model is `.expect("Types should be annotated ..")`; the guard [tg] demands every
-   annotation the translation reads.
+   The failures of the model are `.expect("Types should be annotated ..")` - the guard [tg] demands every
+   annotation the translation reads - and, since the repair <commitcap>, the (unbounded recursion of the Rust code
+   in the) case that the fresh covariable that names a continuation is itself captured by the binder: impossible,
+   because the state of the translation of a definition records all its binders ([tot] carries the invariant
+   B <= used variables, B the binders of the definition body).
    ====================================================================================== *)
 From Coq Require Import List ZArith NArith String Bool Lia.
 From SCC Require Import Base.Sexp Lang.SynUtil Lang.FunSyn Lang.FunTy Lang.CoreSyn.
 From SCC Require Import Sem.AxSem Sem.FunSem Sem.FsCheck Sem.CoreCheck Model.Fun2Core Model.Fun2CoreGuard Model.Fun2CoreTyGuard.
-From SCC Require Import Proof.Fun2CoreProof Proof.Fun2CoreInv Proof.CoreTyRules Proof.Fun2CoreTyBase.
+From SCC Require Import Proof.Fun2CoreProof Proof.Fun2CoreInv Proof.CoreTyRules Proof.Fun2CoreTyBase Proof.Fun2CoreTyScope.
 Import ListNotations.
 Open Scope string_scope.
 Open Scope list_scope.
 
 Arguments var_ok : simpl never.
 
-Definition tot {X} (m : M X) : Prop := forall st, exists x st', m st = Ok (x, st').
+Section Tot.
+Variable B : list string.      (* names that are in use in every state considered: the binders of the definition *)
+Definition tot {X} (m : M X) : Prop :=
+  forall st, incl B (st_used_vars st) -> exists x st', m st = Ok (x, st') /\ incl B (st_used_vars st').
 
 Lemma tot_ret : forall X (x : X), tot (mret x).
-Proof. intros X x st. exists x, st. reflexivity. Qed.
+Proof. intros X x st H. exists x, st. split; [reflexivity | exact H]. Qed.
 Lemma tot_bind : forall X Y (m : M X) (f : X -> M Y), tot m -> (forall x, tot (f x)) -> tot (mbind m f).
 Proof.
-  intros X Y m f Hm Hf st. destruct (Hm st) as [x [st1 E]]. destruct (Hf x st1) as [y [st2 E2]].
-  exists y, st2. unfold mbind. rewrite E. exact E2.
+  intros X Y m f Hm Hf st H. destruct (Hm st H) as [x [st1 [E H1]]]. destruct (Hf x st1 H1) as [y [st2 [E2 H2]]].
+  exists y, st2. unfold mbind. rewrite E. split; [exact E2 | exact H2].
 Qed.
 Lemma tot_lift : forall X (x : X), tot (mlift (Ok x)).
-Proof. intros X x st. exists x, st. reflexivity. Qed.
+Proof. intros X x st H. exists x, st. split; [reflexivity | exact H]. Qed.
 Lemma tot_fresh_in_vars : forall base, tot (fresh_in_vars base).
-Proof. intros base st. unfold fresh_in_vars. destruct (fresh_name (st_used_vars st) base) as [nm used']. eauto. Qed.
+Proof.
+  intros base st H. destruct (fresh_in_vars base st) as [[x st']|e] eqn:E.
+  - exists x, st'. split; [reflexivity|]. destruct (fresh_in_vars_inv _ _ _ _ E) as [_ [Hu _]]. rewrite Hu. apply incl_tl. exact H.
+  - exfalso. unfold fresh_in_vars in E. destruct (fresh_name (st_used_vars st) base). discriminate E.
+Qed.
 Lemma tot_fresh_label : forall base, tot (fresh_label base).
-Proof. intros base st. unfold fresh_label. destruct (fresh_name (st_used_labels st) base) as [nm used']. eauto. Qed.
+Proof.
+  intros base st H. unfold fresh_label. destruct (fresh_name (st_used_labels st) base) as [nm used'].
+  eexists _, _. split; [reflexivity | exact H].
+Qed.
 Lemma tot_push : forall d, tot (push_lifted d).
-Proof. intros d st. unfold push_lifted. eauto. Qed.
+Proof. intros d st H. unfold push_lifted. eexists _, _. split; [reflexivity | exact H]. Qed.
 Lemma tot_share : forall cur cont, tot (share cur cont).
 Proof.
   intros cur cont. unfold share. apply tot_bind.
@@ -43,12 +56,34 @@ Proof.
   intros w ty H. unfold default_compile. apply tot_bind; [apply tot_fresh_in_vars|]. intros a.
   apply tot_bind; [apply H|]. intros s. apply tot_ret.
 Qed.
+(* the repaired placement of a continuation under binders: the fresh covariable is not one of the binders *)
+Lemma tot_guard : forall binders (w : cterm -> M cstmt) lty cont,
+  (forall c, tot (w c)) -> (binders <> [] -> exists ty0, lty = Some ty0) -> incl binders B ->
+  tot (guard_capture false binders w lty cont).
+Proof.
+  intros binders w lty cont Hw Hty Hb. unfold guard_capture. destruct (captures binders cont) eqn:Ecap; [|apply Hw].
+  destruct Hty as [ty0 ->]; [intros ->; discriminate Ecap|].
+  simpl. apply tot_bind; [apply tot_lift|]. intros ty. intros st Hst.
+  destruct (tot_fresh_in_vars "a" st Hst) as [a [sta [Ea Hsta]]].
+  destruct (fresh_in_vars_inv _ _ _ _ Ea) as [Hfresh _].
+  assert (Hc : captures binders (CXVar CCns (new_id a) (compile_ty ty)) = false).
+  { unfold captures. simpl.
+    match goal with |- ?e = false => destruct e eqn:E; [|reflexivity] end. exfalso.
+    apply existsb_exists in E. destruct E as [v [Hv E]]. rewrite orb_false_r in E. apply String.eqb_eq in E. subst v.
+    apply Hfresh. apply Hst. apply Hb. exact Hv. }
+  destruct (Hw (CXVar CCns (new_id a) (compile_ty ty)) sta Hsta) as [s0 [st' [Es Hst']]].
+  eexists _, st'. split; [|exact Hst'].
+  unfold mbind. unfold fresh_covar. rewrite Ea. rewrite Hc. rewrite Es. reflexivity.
+Qed.
+End Tot.
 
 Section Total.
   Variable p : fcprog.
   Variables data codata : list ctydecl.
   Variable cdt : list ctydecl.      (* CompileState.codata_types *)
   Variable cur : string.
+  Variable B : list string.
+  Notation tot := (tot B).
   Notation tg := (tg p data codata).
   Notation tg_args := (tg_args p data codata).
   Notation tg_clauses := (tg_clauses p data codata).
@@ -112,9 +147,25 @@ Section Total.
     apply tot_bind; [eapply Ha; exact H1|]. intros a'. apply tot_bind; [eapply Hb; exact H2 | intros; apply tot_ret].
   Qed.
 
-  Theorem total_all : forall t, TW t /\ TC t.
+  Ltac sb Hb := let z := fresh "z" in let Hz := fresh "Hz" in
+    intros z Hz; apply Hb; simpl; rewrite ?in_app_iff; tauto.
+  Ltac sb_args Hb H :=
+    let H' := fresh in
+    match type of H with Forall _ ?l => assert (H' : Forall (fun a => TW a /\ TC a) l) end;
+    [apply Forall_forall; intros a0 Ha0; apply (proj1 (Forall_forall _ _) H a0 Ha0);
+     intros z0 Hz0; apply Hb; simpl; rewrite ?in_app_iff; try right; apply in_flat_map; exists a0; split; assumption
+    | clear H; rename H' into H].
+  Ltac sb_cls Hb H :=
+    let H' := fresh in
+    match type of H with Forall _ ?l => assert (H' : Forall (fun c => TW (clause_body c) /\ TC (clause_body c)) l) end;
+    [apply Forall_forall; intros a0 Ha0; apply (proj1 (Forall_forall _ _) H a0 Ha0);
+     intros z0 Hz0; apply Hb; simpl; rewrite ?in_app_iff; try right; apply in_flat_map; exists a0; split; [exact Ha0|];
+     destruct a0; simpl in *; apply in_or_app; right; exact Hz0
+    | clear H; rename H' into H].
+
+  Theorem total_all : forall t, incl (bnd t) B -> TW t /\ TC t.
   Proof.
-    induction t using fterm_ind'.
+    induction t using fterm_ind'; intros Hb.
     - (* var *)
       assert (Hty : forall G, tg G (FVar v ty chi) = true -> exists ty0, ty = Some ty0).
       { intros G Hg. rewrite tg_var in Hg. pose proof Hg as Hv. apply var_ok_look in Hv.
@@ -126,10 +177,13 @@ Section Total.
         apply tot_bind; [apply tot_lift | intros; apply tot_ret].
     - split; [intros G cont _; rewrite wc_unfold; apply tot_ret | intros G ty _; rewrite cmp_unfold; apply tot_ret].
     - (* op *)
+      specialize (IHt1 ltac:(sb Hb)). specialize (IHt2 ltac:(sb Hb)).
       destruct IHt1 as [_ C1], IHt2 as [_ C2]. split.
       + intros G cont Hg. rewrite wc_unfold. unfold wc_op. apply tot_bind; [eapply tot_op; eauto | intros; apply tot_ret].
       + intros G ty Hg. rewrite cmp_unfold. eapply tot_op; eauto.
     - (* ifc *)
+      specialize (IHt1 ltac:(sb Hb)). specialize (IHt2 ltac:(sb Hb)). specialize (IHt3 ltac:(sb Hb)).
+      assert (H' : opt_P (fun t => TW t /\ TC t) b) by (destruct b as [b'|]; [apply H; sb Hb | exact I]). clear H. rename H' into H.
       destruct IHt1 as [_ C1], IHt2 as [W2 _], IHt3 as [W3 _].
       assert (HW : TW (FIfC s t1 b t2 t3 ty)).
       { intros G cont Hg. rewrite wc_unfold. rewrite tg_ifc in Hg.
@@ -146,6 +200,7 @@ Section Total.
       split; [exact HW|]. intros G ty0 Hg. rewrite cmp_unfold. apply tot_default. intros cont.
       specialize (HW G cont Hg). rewrite wc_unfold in HW. exact HW.
     - (* print *)
+      specialize (IHt1 ltac:(sb Hb)). specialize (IHt2 ltac:(sb Hb)).
       destruct IHt1 as [_ C1], IHt2 as [W2 _].
       assert (HW : TW (FPrint nl t1 t2 ty)).
       { intros G cont Hg. rewrite wc_unfold. rewrite tg_print in Hg. apply andb_prop in Hg. destruct Hg as [Hg _].
@@ -154,16 +209,21 @@ Section Total.
       split; [exact HW|]. intros G ty0 Hg. rewrite cmp_unfold. apply tot_default. intros cont.
       specialize (HW G cont Hg). rewrite wc_unfold in HW. exact HW.
     - (* let *)
+      specialize (IHt1 ltac:(sb Hb)). specialize (IHt2 ltac:(sb Hb)).
       destruct IHt1 as [W1 C1], IHt2 as [W2 _].
       assert (HW : TW (FLet v vty t1 t2 ty)).
-      { intros G cont Hg. rewrite wc_unfold. rewrite tg_let in Hg. apply andb_prop in Hg. destruct Hg as [Hg _].
+      { intros G cont Hg. rewrite wc_unfold. rewrite tg_let in Hg. apply andb_prop in Hg. destruct Hg as [Hg Hsame].
         apply andb_prop in Hg. destruct Hg as [Hg Hg2]. apply andb_prop in Hg. destruct Hg as [Hg _]. apply andb_prop in Hg. destruct Hg as [Hg1 _].
-        unfold wc_let. apply tot_bind; [eapply W2; exact Hg2|]. intros body.
-        destruct (ty_is_codata cdt (compile_ty vty)); [|eapply W1; exact Hg1].
-        apply tot_bind; [eapply C1; exact Hg1 | intros; apply tot_ret]. }
+        apply tot_guard.
+        - intros c. unfold wc_let. apply tot_bind; [eapply W2; exact Hg2|]. intros body.
+          destruct (ty_is_codata cdt (compile_ty vty)); [|eapply W1; exact Hg1].
+          apply tot_bind; [eapply C1; exact Hg1 | intros; apply tot_ret].
+        - intros _. unfold same_ty in Hsame. destruct ty as [ty0|]; [eauto | discriminate].
+        - intros z [<-|[]]. apply Hb. simpl. left. reflexivity. }
       split; [exact HW|]. intros G ty0 Hg. rewrite cmp_unfold. apply tot_default. intros cont.
       specialize (HW G cont Hg). rewrite wc_unfold in HW. exact HW.
     - (* call *)
+      sb_args Hb H.
       assert (HA : Forall TC args) by (eapply Forall_impl; [|exact H]; intros a [_ Ca]; exact Ca).
       assert (HW : TW (FCall f args ret)).
       { intros G cont Hg. rewrite wc_unfold. rewrite tg_call in Hg. apply andb_prop in Hg. destruct Hg as [_ Hg].
@@ -174,6 +234,7 @@ Section Total.
       split; [exact HW|]. intros G ty0 Hg. rewrite cmp_unfold. apply tot_default. intros cont.
       specialize (HW G cont Hg). rewrite wc_unfold in HW. exact HW.
     - (* ctor *)
+      sb_args Hb H.
       assert (HA : Forall TC args) by (eapply Forall_impl; [|exact H]; intros a [_ Ca]; exact Ca).
       assert (HC : TC (FCtor x args ty)).
       { intros G ty0 Hg. rewrite cmp_unfold. rewrite tg_ctor in Hg. unfold tyo in Hg. simpl in Hg. destruct ty as [ty1|]; [|discriminate].
@@ -187,6 +248,7 @@ Section Total.
       destruct Hs as [ty1 ->]. simpl. apply tot_bind; [apply tot_lift|]. intros ty'.
       apply tot_bind; [|intros; apply tot_ret]. specialize (HC G CI64 Hg). rewrite cmp_unfold in HC. exact HC.
     - (* dtor *)
+      specialize (IHt ltac:(sb Hb)). sb_args Hb H.
       destruct IHt as [Ws _].
       assert (HA : Forall TC args) by (eapply Forall_impl; [|exact H]; intros a [_ Ca]; exact Ca).
       assert (HW : TW (FDtor t x targs args ty)).
@@ -201,18 +263,27 @@ Section Total.
       split; [exact HW|]. intros G ty0 Hg. rewrite cmp_unfold. apply tot_default. intros cont.
       specialize (HW G cont Hg). rewrite wc_unfold in HW. exact HW.
     - (* case *)
+      specialize (IHt ltac:(sb Hb)). sb_cls Hb H.
       destruct IHt as [Ws _].
       assert (HB : Forall (fun c => TW (clause_body c)) cls) by (eapply Forall_impl; [|exact H]; intros a [Wa _]; exact Wa).
       assert (HW : TW (FCase t targs cls ty)).
       { intros G cont Hg. rewrite wc_unfold. rewrite tg_case in Hg. apply andb_prop in Hg. destruct Hg as [Hgs Hg].
         unfold tyo in Hg. destruct (fterm_type t) as [sty|] eqn:Est; [|discriminate]. simpl in Hg.
         destruct (compile_ty sty) as [|n]; [discriminate|]. destruct (find_decl data n) as [d|]; [|discriminate].
-        unfold wc_case. apply tot_bind; [destruct (Nat.leb (List.length cls) 1 || cont_is_small cont); [apply tot_ret | apply tot_share]|].
-        intros cont1. apply tot_bind; [eapply tot_clauses; eauto|]. intros cls'. simpl.
-        apply tot_bind; [apply tot_lift|]. intros sty0. eapply Ws; exact Hgs. }
+        apply tot_guard.
+        - intros c. unfold wc_case. apply tot_bind; [destruct (Nat.leb (List.length cls) 1 || cont_is_small c); [apply tot_ret | apply tot_share]|].
+          intros cont1. apply tot_bind; [eapply tot_clauses; eauto|]. intros cls'. simpl.
+          apply tot_bind; [apply tot_lift|]. intros sty0. eapply Ws; exact Hgs.
+        - intros Hne. destruct cls as [|[pl x names ctx body] r]; [contradiction Hne; reflexivity|].
+          destruct (ctxtors d) as [|sg xr]; [discriminate|]. rewrite tg_clauses_cons in Hg. apply andb_prop in Hg. destruct Hg as [Hg1 _].
+          unfold Fun2CoreTyGuard.tg_clause in Hg1. apply andb_prop in Hg1. destruct Hg1 as [_ Hsame].
+          unfold same_ty in Hsame. destruct ty as [ty0|]; [eauto | discriminate].
+        - intros z Hz. apply Hb. simpl. apply in_or_app. right. apply in_flat_map in Hz. destruct Hz as [[pl x names ctx body] [Hc Hz]].
+          apply in_flat_map. exists (FClause pl x names ctx body). split; [exact Hc | apply in_or_app; left; exact Hz]. }
       split; [exact HW|]. intros G ty0 Hg. rewrite cmp_unfold. apply tot_default. intros cont.
       specialize (HW G cont Hg). rewrite wc_unfold in HW. exact HW.
     - (* new *)
+      sb_cls Hb H.
       assert (HB : Forall (fun c => TW (clause_body c)) cls) by (eapply Forall_impl; [|exact H]; intros a [Wa _]; exact Wa).
       assert (HC : TC (FNew cls ty)).
       { intros G ty0 Hg. rewrite cmp_unfold. rewrite tg_new in Hg. unfold tyo in Hg. simpl in Hg. destruct ty as [ty1|]; [|discriminate].
@@ -225,6 +296,7 @@ Section Total.
       destruct Hs as [ty1 ->]. simpl. apply tot_bind; [apply tot_lift|]. intros ty'.
       apply tot_bind; [|intros; apply tot_ret]. specialize (HC G CI64 Hg). rewrite cmp_unfold in HC. exact HC.
     - (* label *)
+      specialize (IHt ltac:(sb Hb)).
       destruct IHt as [W _].
       assert (HC : TC (FLabel l t ty)).
       { intros G ty0 Hg. rewrite cmp_unfold. rewrite tg_label in Hg. destruct ty as [ty1|]; [|discriminate].
@@ -236,6 +308,7 @@ Section Total.
       destruct Hs as [ty1 ->]. simpl. apply tot_bind; [apply tot_lift|]. intros ty'.
       apply tot_bind; [|intros; apply tot_ret]. specialize (HC G CI64 Hg). rewrite cmp_unfold in HC. exact HC.
     - (* goto *)
+      specialize (IHt ltac:(sb Hb)).
       destruct IHt as [W _].
       assert (HW : forall G, tg G (FGoto l t ty) = true -> tot (wc_goto false l (wc' t) ty (fterm_type t))).
       { intros G Hg. rewrite tg_goto in Hg. apply andb_prop in Hg. destruct Hg as [Hg Hgt]. apply andb_prop in Hg. destruct Hg as [Hv _].
@@ -245,6 +318,7 @@ Section Total.
       + intros G cont Hg. rewrite wc_unfold. eapply HW; exact Hg.
       + intros G ty0 Hg. rewrite cmp_unfold. apply tot_default. intros cont. eapply HW; exact Hg.
     - (* exit *)
+      specialize (IHt ltac:(sb Hb)).
       destruct IHt as [_ Ca].
       assert (HW : forall G, tg G (FExit t ty) = true -> tot (wc_exit (cmp' t CI64) ty)).
       { intros G Hg. rewrite tg_exit in Hg. apply andb_prop in Hg. destruct Hg as [Hg Han]. apply andb_prop in Hg. destruct Hg as [Hga _].
@@ -254,6 +328,7 @@ Section Total.
       + intros G cont Hg. rewrite wc_unfold. eapply HW; exact Hg.
       + intros G ty0 Hg. rewrite cmp_unfold. apply tot_default. intros cont. eapply HW; exact Hg.
     - (* paren *)
+      specialize (IHt ltac:(sb Hb)).
       destruct IHt as [W Ca]. split.
       + intros G cont Hg. rewrite wc_unfold. eapply W. rewrite tg_paren in Hg. exact Hg.
       + intros G ty0 Hg. rewrite cmp_unfold. eapply Ca. rewrite tg_paren in Hg. exact Hg.
@@ -267,23 +342,26 @@ Lemma compile_defs_total : forall p defs ul front back,
 Proof.
   intros p. induction defs as [|d r IH]; intros ul front back Hg; simpl; [eauto|].
   pose proof (Hg d (or_introl eq_refl)) as Hd. unfold def_tyguard in Hd.
-  apply andb_prop in Hd. destruct Hd as [Hd Hret]. apply andb_prop in Hd. destruct Hd as [Hd _].
+  apply andb_prop in Hd. destruct Hd as [Hd Hret].
   apply andb_prop in Hd. destruct Hd as [_ Htg].
   assert (Hbty : exists bty, fterm_type (fdbody d) = Some bty).
   { destruct (String.eqb (fdname d) "main"); [|apply andb_prop in Hret; destruct Hret as [Hret _]];
       unfold has_ty, tyo in Hret; destruct (fterm_type (fdbody d)) as [bty|]; eauto; discriminate. }
   destruct Hbty as [bty Ebty].
+  set (B := bnd (fdbody d)).
+  assert (HB : incl B (used_binders (fdbody d) (fvars (fdctx d)))).
+  { intros x Hx. eapply (tg_bnd_used p (cdata_of p) (ccodata_of p)); eassumption. }
   destruct (String.eqb (fdname d) "main").
   - unfold compile_main, run_def_body. rewrite Ebty.
-    match goal with |- context [mbind ?m ?f ?st] => destruct (tot_bind _ _ m f (tot_fresh_in_vars "x")
-       (fun x => proj1 (total_all p (cdata_of p) (ccodata_of p) (ccodata_of p) (fdname d) (fdbody d)) _ _ Htg) st) as [body [st' E]] end.
+    match goal with |- context [mbind ?m ?f ?st] => destruct (tot_bind B _ _ m f (tot_fresh_in_vars B "x")
+       (fun x => proj1 (total_all p (cdata_of p) (ccodata_of p) (ccodata_of p) (fdname d) B (fdbody d) (incl_refl _)) _ _ Htg) st HB) as [body [st' [E _]]] end.
     rewrite E. simpl. apply IH. intros d0 Hd0. apply Hg. right. exact Hd0.
   - unfold compile_def, run_def_body. rewrite Ebty.
     match goal with |- context [mbind ?m ?f ?st] =>
-      assert (Ht : tot (mbind m f)) end.
+      assert (Ht : tot B (mbind m f)) end.
     { apply tot_bind; [apply tot_fresh_in_vars|]. intros a. apply tot_bind; [|intros; apply tot_ret].
-      eapply (proj1 (total_all p (cdata_of p) (ccodata_of p) (ccodata_of p) (fdname d) (fdbody d))). exact Htg. }
-    match goal with |- context [mbind ?m ?f ?st] => destruct (Ht st) as [[a body] [st' E]] end.
+      eapply (proj1 (total_all p (cdata_of p) (ccodata_of p) (ccodata_of p) (fdname d) B (fdbody d) (incl_refl _))). exact Htg. }
+    match goal with |- context [mbind ?m ?f ?st] => destruct (Ht st HB) as [[a body] [st' [E _]]] end.
     rewrite E. simpl. apply IH. intros d0 Hd0. apply Hg. right. exact Hd0.
 Qed.
 
